@@ -59,10 +59,10 @@ import (
 // Oracle: shard.match: exactly one shard accepts a series.  o.shard.eval: when the analyzer shards the query the merged
 // result must equal the unsharded one (floats up to 1e-9 relative).  Classes:
 //
-//	without-grouping-keeps-metric-name   sharded result differs, and sharding by the labels the analyzer would give if every
-//	                                     "without (…)" aggregation (and histogram_quantile's le) also excluded __name__ is exact
-//	count-values-label-not-dynamic       sharded result differs, and it is exact when the label written by count_values is
-//	                                     treated as a dynamic label like label_replace's (possibly together with the above)
+//	metric-name-not-tracked              sharded result differs, the analyzer's labels are not name-safe (__name__ among "by"
+//	                                     labels, or missing from "without" labels, although the engine drops the metric name
+//	                                     in without-aggregations, histogram_quantile and most functions), and sharding by the
+//	                                     name-safe variant of the same labels is exact or disables sharding
 //	(results that depend on the ORDER of the input series — topk/bottomk ties — are skipped: the unsharded answer is not a
 //	function of the series set there)
 //	sharded-result-differs               anything else
@@ -778,28 +778,39 @@ func c44Manual(series []memSeries, query string, ns int, by bool, ls []string) (
 	return r.(*queryrange.PrometheusResponse).Data.Result, nil
 }
 
+// c44Diagnose names the cause of a wrong sharded result.  The analyzer does not track where the engine drops the metric
+// name ("without" aggregations, histogram_quantile, most functions and arithmetic): a sharding is name-safe when __name__ is
+// not among "by" labels and is among "without" labels (the hypothesis NameSafe of the Lean theorem C44_sound).  If the
+// analysis of this query is not name-safe and the name-safe variant of its labels shards exactly (or not at all), the class
+// is metric-name-not-tracked.
 func c44Diagnose(series []memSeries, want []queryrange.SampleStream, ns int, query string) string {
-	l0, by0, _ := c44Analysis(query, false, false)
-	try := func(nameFix, cvFix bool) bool {
-		ls, by, sh := c44Analysis(query, nameFix, cvFix)
-		if by == by0 && eqStrs(ls, l0) {
-			return false // the correction does not change the analysis of this query: it explains nothing
-		}
-		if !sh {
-			return true // with the correction the query is not sharded at all
-		}
-		got, err := c44Manual(series, query, ns, by, ls)
-		if err != nil {
-			return false
-		}
-		ok, _ := sameMatrix(want, got)
-		return ok
+	ls, by, sh := c44Analysis(query, false, false)
+	if !sh {
+		return "sharded-result-differs"
 	}
-	switch {
-	case try(true, false):
-		return "without-grouping-keeps-metric-name"
-	case try(false, true), try(true, true):
-		return "count-values-label-not-dynamic"
+	hasName := false
+	var safe []string
+	for _, l := range ls {
+		if l == labels.MetricName {
+			hasName = true
+			if by {
+				continue
+			}
+		}
+		safe = append(safe, l)
+	}
+	if by == hasName { // by ∧ name ∈ K, or without ∧ name ∉ K: not name-safe
+		if !by {
+			safe = append(safe, labels.MetricName)
+		}
+		if len(safe) == 0 {
+			return "metric-name-not-tracked" // name-safe labels are empty: the query would not be sharded
+		}
+		if got, err := c44Manual(series, query, ns, by, safe); err == nil {
+			if ok, _ := sameMatrix(want, got); ok {
+				return "metric-name-not-tracked"
+			}
+		}
 	}
 	return "sharded-result-differs"
 }
